@@ -142,3 +142,44 @@ package util
 //@   ensures (forall a, b :: 0 <= a && a < b && b < len(x) ==> old(x[a]) <= old(x[b])) ==> (forall i :: 0 <= i && i < len(x) ==> x[i] == old(x[i]))
 //@   modifies x[_]
 //@   trusted "sort.Ints sorts ascending, permutes, and leaves an already sorted slice unchanged"
+
+// ---- time: wall-clock is abstract (any reading), see DESIGN ------------------------------------
+//@ extern func time.Now() (t time.Time)
+//@   effectfree
+//@   trusted "abstract clock: any time value"
+//@ extern func (t time.Time).IsZero() (b bool)
+//@   effectfree
+//@   trusted "pure"
+//@ extern func (t time.Time).Sub(u time.Time) (d time.Duration)
+//@   effectfree
+//@   trusted "pure; any duration (the property quantifies over elapsed times incl. 0)"
+//@ extern func (d time.Duration).Seconds() (s float64)
+//@   effectfree
+//@   ensures fin(s)
+//@   trusted "Duration.Seconds is finite"
+//@ extern func time.Sleep(d time.Duration)
+//@   effectfree
+//@   trusted "sleeping has no effect on program state"
+//@ extern func (m *sync.Mutex).Lock()
+//@   effectfree
+//@   trusted "mutex state is not observed by any contract (single sequential step)"
+//@ extern func (m *sync.Mutex).Unlock()
+//@   effectfree
+//@   trusted "mutex state is not observed by any contract (single sequential step)"
+
+//@ func Coerce
+//@   props C01 C04 C06
+//@   ensures[nan]   isnan(value) ==> isnan(result)
+//@   ensures[range] !isnan(value) && min <= max ==> min <= result && result <= max
+//@   ensures[id]    min <= value && value <= max ==> result == value
+//@   ensures[sat]   (value > max ==> result == max) && (!(value > max) && value < min ==> result == min)
+//@   modifies nothing
+
+//@ func (*PidLoop).Loop
+//@   props C01
+//@   modifies p.integral, p.error, p.lastTime
+
+//@ extern func errors.Is(err error, target error) (b bool)
+//@   effectfree
+//@   trusted "pure predicate on error chains"
+//@ sentinel os.ErrPermission os.ErrNotExist os.ErrInvalid os.ErrExist context.DeadlineExceeded context.Canceled
